@@ -253,6 +253,17 @@ def cb_view(facts, tr, rep):
     return CB(f, t, rep), f, t
 
 
+def _is_counter_field(facts, adt_def, name):
+    adt = facts.adt(adt_def)
+    if adt is None:
+        return False
+    crate = [c_ for c_ in facts.crates.values() if adt_def in c_.adts]
+    for f in adt["variants"][0]["fields"]:
+        if f["name"] == name and crate:
+            return crate[0].types[f["ty"]]["s"] in ("usize", "u64", "u32", "u16", "u8")
+    return False
+
+
 def check_no_evict_in_half_open(cb, rep, rule):
     """the counter the half-open closing decision reads must not be decremented while half-open"""
     facts, tr = cb.facts, cb.tr
@@ -264,11 +275,13 @@ def check_no_evict_in_half_open(cb, rep, rule):
             if b_ is rs and tgt == "Closed":
                 for e in dominating_edges(tr, rs, cs.bb):
                     if e["kind"] == "bool" and mentions_field(tr, e["node"], "permitted_calls_in_half_open"):
-                        close_fields |= {x[2] for x in tr.walk(e["node"], limit=80) if x[0] == "field" and x[3] == cb.circuit_adt}
-    rep.note("closing decision reads %s" % sorted(close_fields))
+                        # counters of the circuit, or of a struct the circuit groups them in (`self.tally.successes`)
+                        close_fields |= {(x[3], x[2]) for x in tr.walk(e["node"], limit=80) if x[0] == "field" and x[3] and isinstance(x[2], str)
+                                         and (x[3] == cb.circuit_adt or x[3].startswith(CRATE)) and _is_counter_field(facts, x[3], x[2])}
+    rep.note("closing decision reads %s" % sorted(f_ for (_a, f_) in close_fields))
     ndec = 0
-    for f in sorted(close_fields):
-        for (b_, i, j, s_) in field_writes(facts, cb.circuit_adt, f):
+    for (adt_, f) in sorted(close_fields):
+        for (b_, i, j, s_) in field_writes(facts, adt_, f):
             val = peel(tr.stmt_value(b_, i, j))
             dec = (val[0] == "call" and tr.call_of(val).name in ("saturating_sub", "wrapping_sub", "checked_sub")) or \
                   (val[0] == "field" and peel(val[1])[0] == "binop" and peel(val[1])[1].startswith("Sub")) or (val[0] == "binop" and val[1].startswith("Sub"))
@@ -379,8 +392,8 @@ def check_stats_partition(cb, rep, rule):
                 guards.setdefault(c.dest["l"], []).append((gs, c.where()))
         for i, blk in enumerate(F.blocks):
             for j, s_ in enumerate(blk["stmts"]):
-                if s_["k"] != "assign" or s_["lhs"]["p"]:
-                    continue
+                if s_["k"] != "assign" or s_["lhs"]["p"] or not F.locals[s_["lhs"]["l"]].get("user"):
+                    continue        # (the checked-add temporaries of `x += 1` are not counters)
                 v = peel(tr.stmt_value(F, i, j))
                 if v[0] == "field" and peel(v[1])[0] == "binop":
                     v = peel(v[1])
@@ -391,6 +404,9 @@ def check_stats_partition(cb, rep, rule):
                     if e["kind"] == "bool" and e["node"][0] == "field" and isinstance(e["node"][2], str) and "via" not in e:
                         gs.add((e["node"][2], e["label"]))
                 guards.setdefault(s_["lhs"]["l"], []).append((gs, g.where(i, j)))
+        # a four-armed `match (is_failure, is_slow)` says the same as two `if`s: {C+(k,true), C+(k,false)} == {C}
+        fams = {l: _simplify_family({frozenset(gs) for (gs, _w) in lst}) for l, lst in guards.items()}
+        guards = {l: [(set(gs), lst[0][1]) for gs in fams[l]] for l, lst in guards.items()}
         for l, lst in guards.items():
             for (gs, wh) in lst:
                 for (f, lab) in gs:
@@ -440,6 +456,24 @@ def check_stats_partition(cb, rep, rule):
     return n
 
 
+def _simplify_family(fam):
+    fam = set(fam)
+    changed = True
+    while changed:
+        changed = False
+        for a_ in list(fam):
+            for (k_, lab_) in a_:
+                twin = frozenset((a_ - {(k_, lab_)}) | {(k_, "false" if lab_ == "true" else "true")})
+                if twin in fam and twin != a_:
+                    fam -= {a_, twin}
+                    fam.add(frozenset(a_ - {(k_, lab_)}))
+                    changed = True
+                    break
+            if changed:
+                break
+    return fam
+
+
 def _closure_flag_guards(tr, clo):
     """{(flag field, 'true'|'false')} a record must satisfy for the filter closure `clo` to keep it; None when the
     closure is not a conjunction of flag tests"""
@@ -471,3 +505,97 @@ def _closure_flag_guards(tr, clo):
                 return None
             keep.append(gs)
     return keep[0] if len(keep) == 1 else None
+
+
+def check_slide_symmetry(cb, rep, rule):
+    """the count-based window keeps running counters next to the queue of outcomes: what recording an outcome adds to a
+    counter, evicting that outcome must take away again.  In the function that both pushes the new outcome tuple and pops
+    the old one (fully inlined: `tally.add(..)` / `tally.remove(..)` helpers do not matter), every counter is incremented
+    under the same flags of the pushed tuple as it is decremented under of the popped tuple; a counter that is bumped for
+    every slow call but taken back only for slow *successes* drifts upwards until the next transition"""
+    from ..inline import view_of
+    facts = cb.facts
+    ffacts, ftr = view_of(facts, "full")
+    n = 0
+    orig = getattr(facts, "orig", facts)
+    for F0 in orig.crates[CRATE].bodies:
+        if F0.kind != "fn" or not cb._is_circuit_method(F0):
+            continue
+        g0 = graph(F0)
+        if not any(c.name in ("pop_front", "pop_back") for c in g0.calls()) or not any(c.name in ("push_back", "push_front") for c in g0.calls()):
+            continue
+        F = ffacts.bodies.get(F0.def_) or F0
+        g = graph(F)
+        pushes = [c for c in g.calls() if c.name in ("push_back", "push_front") and len(c.args) > 1]
+        pops = [c for c in g.calls() if c.name in ("pop_front", "pop_back")]
+        pushed = {}
+        for c in pushes:
+            v = peel(ftr.expand(ftr.operand(F, c.args[1], c.loc)))
+            if v[0] == "agg":
+                b2, rv = ftr.agg_of(v)
+                if rv.get("ak") == "tuple":
+                    for k, o in enumerate(rv["ops"]):
+                        pushed[k] = peel(ftr.expand(ftr.operand(b2, o, (v[3], v[4]))))
+        if not pushed or not pops:
+            continue
+        rep.saw(F)
+        popnodes = [("call", F.crate.name, F.def_, c.bb) for c in pops]
+
+        def popped_pos(node):
+            """k when node is field k of the tuple a pop returned"""
+            node = peel(node)
+            if node[0] != "field":
+                return None
+            k = node[2]
+            base = peel(node[1])
+            while base[0] in ("field", "downcast"):
+                base = peel(base[1])
+            if base in popnodes and str(k).isdigit():
+                return int(k)
+            return None
+        incs, decs = {}, {}
+        for i, blk in enumerate(F.blocks):
+            if not g.live(i):
+                continue
+            for j, s_ in enumerate(blk["stmts"]):
+                if s_["k"] != "assign" or not s_["lhs"]["p"]:
+                    continue
+                last = s_["lhs"]["p"][-1]
+                if not (isinstance(last, dict) and last.get("adt") and last.get("n") and _is_counter_field(facts, last["adt"], last["n"])):
+                    continue
+                v = peel(ftr.stmt_value(F, i, j))
+                if v[0] == "field" and peel(v[1])[0] == "binop":
+                    v = peel(v[1])
+                kind = None
+                if v[0] == "binop" and v[1].startswith("Add"):
+                    kind = "inc"
+                elif (v[0] == "binop" and v[1].startswith("Sub")) or (v[0] == "call" and ftr.call_of(v).name in ("saturating_sub", "wrapping_sub", "checked_sub")):
+                    kind = "dec"
+                if kind is None:
+                    continue
+                gs = set()
+                for e in dominating_edges(ftr, F, i):
+                    if e["kind"] != "bool" or "via" in e:
+                        continue
+                    nd = peel(e["node"])
+                    if kind == "inc":
+                        for k, pn in pushed.items():
+                            if nd == pn:
+                                gs.add((k, e["label"]))
+                    else:
+                        k = popped_pos(nd)
+                        if k is not None:
+                            gs.add((k, e["label"]))
+                (incs if kind == "inc" else decs).setdefault(last["n"], set()).add(frozenset(gs))
+        simplify = _simplify_family
+        for f in sorted(set(incs) | set(decs)):
+            if f not in incs or f not in decs:
+                continue
+            n += 1
+            incs[f], decs[f] = simplify(incs[f]), simplify(decs[f])
+            ok = incs[f] == decs[f]
+            rep.ob(rule, skey(F, "symmetric.%s" % f), ok, "%s:%d" % (F.span["file"], F.span["line"]),
+                   "%s is incremented and decremented under the same flags of the recorded / evicted outcome" % f if ok else
+                   "%s is incremented under %s of the recorded outcome but decremented under %s of the evicted one: the counter no longer "
+                   "equals the number of such outcomes in the window" % (f, sorted(map(sorted, incs[f])), sorted(map(sorted, decs[f]))))
+    return n
